@@ -1,8 +1,8 @@
 #!/bin/sh
-# seedimport.sh C03  -> copies /tmp/seed-C03/seeded/{patch,demo,meta}_{A,B} to /verif/seeded/C03-{A,B}/
-P=$1
-for X in A B; do
-  src=/tmp/seed-$P/seeded
+# seedimport.sh C03 [dir-prefix] [letters]  -> copies <prefix>-C03/seeded/{patch,demo,meta}_X to /verif/seeded/C03-X/
+P=$1; PRE=${2:-/tmp/seed}; LET=${3:-"A B"}
+for X in $LET; do
+  src=$PRE-$P/seeded
   [ -f $src/patch_$X.diff ] || continue
   d=/verif/seeded/$P-$X; mkdir -p $d
   cp $src/patch_$X.diff $d/patch.diff; cp $src/demo_$X.py $d/demo.py; cp $src/meta_$X.json $d/meta.json
